@@ -52,6 +52,8 @@ func (c *vfC08Client) open() error {
 func (c *vfC08Client) abandon() {
 	if c.cancel != nil {
 		c.cancel()
+		// what the REST layer does after cancelling: wake parked feeds so they notice
+		c.env.DBC.NotifyTerminatedChanges(c.env.Ctx, "")
 		// drain so the feed goroutine can finish
 		deadline := time.After(vfWaitBound)
 	drain:
